@@ -248,6 +248,7 @@ def impl(case):
 
         def ep():
             return holder['v']
+        ep.__doc__ = case.get('doc')      # the HTML table view shows the endpoint's docstring
         app = Application([('/v', ep, renders[rq['render']])])
         holder['v'] = to_python(case['value'])
         headers = {} if rq['accept'] is None else {'Accept': rq['accept']}
@@ -348,7 +349,9 @@ def gen_case(rng, tier):
         if render == 'jsonp':
             q = rng.choice(['callback=cb', 'callback=my.fn', ''])
         reqs.append({'render': render, 'query': q, 'accept': rng.choice(ACCEPTS)})
-    return {'value': value, 'tabular': tab, 'requests': reqs}
+    doc = rng.choice([None, None, 'List all the things.', 'First line.\n\n    Indented details\n    of the endpoint.\n', '',
+                      '   ', 'Ends with a newline\n', '<b>markup</b> & "quotes" in one line', '\n  starts with a newline'])
+    return {'value': value, 'tabular': tab, 'requests': reqs, 'doc': doc}
 
 
 def shrink(case):
@@ -363,7 +366,7 @@ def run(rep, b, tier, seed, only_cases=None):
         [{'value': ['s', t], 'tabular': False, 'requests': [{'render': 'basic', 'query': '', 'accept': None}, {'render': 'basic', 'query': 'format=html', 'accept': 'text/html'}]} for t in TEXTS] + \
         [{'value': ['b', t], 'tabular': False, 'requests': [{'render': 'basic', 'query': '', 'accept': None}]} for t in TEXTS] + \
         [gen_case(rng, tier) for _ in range(500 if tier == 'quick' else 5000)]
-    rep.rule = ('renderlab: endpoint results from {str, bytes (%d texts: JSON-like, HTML-like incl. a 168-byte doctype boundary, plain, '
+    rep.rule = ('renderlab: endpoints with 8 docstring shapes (none, one line, multi-line, empty, blank, markup); endpoint results from {str, bytes (%d texts: JSON-like, HTML-like incl. a 168-byte doctype boundary, plain, '
                 'empty, non-ASCII), int, float, bool, None, nested dict/list/tuple/set to depth 3, custom Mapping, datetime, objects with '
                 'to_dict/asdict, plain objects, generators} and tabular shapes; renderers render_basic / render_json / render_json_dev / '
                 'streaming JSON / JSONP with callback; format in {absent, json, html, empty, other}; %d Accept headers; status, '
